@@ -6,7 +6,7 @@ import stat
 
 from . import gen, stores
 from .c13 import digest
-from .util import md5hex, safe_call
+from .util import bump_mtime, md5hex, safe_call
 
 
 def audit_store(path, algo, local):
@@ -84,6 +84,15 @@ def run_sequence(ctx, rng):
                     sp["files"] += list(files.values())
                     sp["trees"].append(files)
                     staged_ws[ws] = files
+            elif rng.random() < 0.22:
+                # ---- a *verifying* transfer whose source does not hold what its names say (the only kind of source the
+                # property lets deviate: the destination was asked to check what it receives)
+                wsn += 1
+                if rng.random() < 0.5:
+                    t = _fetch_from_rotten_remote(rng, root, wsn, i, sp, shared_state, fs, build, transfer, HashInfo)
+                else:
+                    t = _stage_rewritten_before_transfer(rng, root, wsn, i, sp, fs, build, transfer)
+                trace.append(t)
             elif r < 0.3:
                 files = gen.rand_tree(rng, max_files=5, max_depth=2)
                 if rng.random() < 0.5:
@@ -125,8 +134,11 @@ def run_sequence(ctx, rng):
                 if j != i and specs[j]["algo"] == sp["algo"]:
                     oids = [o for o in stores.listing_of(odb.path) if rng.random() < 0.7]
                     hl = rng.random() < 0.4
-                    kind, res = safe_call(lambda: transfer(odb, specs[j]["odb"], {HashInfo(sp["algo"], o) for o in oids}, hardlink=hl))
-                    trace.append(["transfer", i, j, len(oids), "hardlink" if hl else "copy", kind if kind == "ok" else res])
+                    vf = rng.random() < 0.4
+                    kind, res = safe_call(lambda: transfer(odb, specs[j]["odb"], {HashInfo(sp["algo"], o) for o in oids}, hardlink=hl,
+                                                           verify=vf))
+                    trace.append(["transfer", i, j, len(oids), "hardlink" if hl else "copy", "verify" if vf else "trusting",
+                                  kind if kind == "ok" else res])
                     if kind == "ok":
                         specs[j]["copied"] = specs[j].get("copied", set()) | set(oids)
             elif r < 0.8 and sp["algo"] == "md5":
@@ -165,6 +177,9 @@ def run_sequence(ctx, rng):
     ctx.case(case, nontrivial=len(trace) >= 3)
     for t in trace:
         ctx.count("op:" + t[0])
+        if t[0].startswith("verified_") and isinstance(t[-1], list):
+            ctx.count("unfaithful source, verify=True: " + ("hash-state database" if shared_state is not None else "no state") + ", "
+                      + ("some objects refused" if t[-1][3] else "nothing refused"))
     ctx.count("stores:" + ",".join(sorted(s["algo"] + ("/local" if s["local"] else "/generic") for s in specs)))
     for v in viol[:3]:
         ctx.oracle(False, case, v)
@@ -190,6 +205,109 @@ def run_sequence(ctx, rng):
         ctx.sample(case)
 
 
+def _other_bytes(rng, algo, oid, data, is_dir):
+    """bytes that the store's algorithm does NOT name `oid`: same length (a flipped byte: what bit rot and an in-place edit
+    look like) or another length; a directory listing stays a well-formed listing of the same entries"""
+    cands = []
+    if is_dir:
+        lst = json.loads(data)
+        cands = [json.dumps(lst, indent=1).encode(), json.dumps(lst, sort_keys=True, separators=(",", ":")).encode()]
+    else:
+        if data and rng.random() < 0.5:
+            k = rng.randrange(len(data))
+            cands.append(data[:k] + bytes([data[k] ^ 0x20 if data[k] not in (10, 13, 42, 45) else 0x7A]) + data[k + 1:])
+        cands.append(data + b"rot%d" % rng.randrange(100))
+        cands.append(b"something else entirely\n" + data)
+    for c in cands:
+        if c != data and digest(algo, c) != oid.split(".")[0]:
+            return c
+    raise AssertionError("no differing bytes found")
+
+
+def _fetch_from_rotten_remote(rng, root, wsn, i, sp, shared_state, fs, build, transfer, HashInfo):
+    """a remote outside the audited stores is filled through the library, then some of its objects rot (other bytes under the
+    same name; still write-protected or not; same size or not; '.dir' objects too); what is asked for is fetched into an
+    audited store with verify=True (copy or hard link)"""
+    algo = sp["algo"]
+    rlocal = rng.random() < 0.5
+    cfg = {"hash_name": algo}
+    if shared_state is not None and rng.random() < 0.3:
+        cfg["state"] = shared_state
+    remote = stores.make_odb(os.path.join(root, "remote%d" % wsn), local=rlocal, **cfg)
+    files = gen.rand_tree(rng, max_files=4, max_depth=1)
+    ws = os.path.join(root, "rws%d" % wsn)
+    gen.materialize(ws, files, rng)
+    kind, top = safe_call(lambda: _stage(build, transfer, remote, ws, fs, algo))
+    if kind != "ok":
+        return ["verified_fetch_from_rotten_remote", i, "remote not filled", top]
+    have = stores.listing_of(remote.path)
+    victims = [o for o in have if rng.random() < 0.5] or [rng.choice(have)]
+    rotted = []
+    for o in victims:
+        p = os.path.join(remote.path, o[:2], o[2:])
+        old = stores.read_obj(remote.path, o)
+        new = _other_bytes(rng, algo, o, old, o.endswith(".dir"))
+        protected = rng.random() < 0.6
+        stores.put_raw(remote.path, o, new, mode=0o444 if protected else 0o644)
+        bump_mtime(p)
+        rotted.append([("dir" if o.endswith(".dir") else "file"), "same-size" if len(new) == len(old) else "other-size",
+                       "protected" if protected else "writable"])
+    ids = {HashInfo(algo, top)} if rng.random() < 0.5 else {HashInfo(algo, o) for o in have if rng.random() < 0.8}
+    hl = rng.random() < 0.3
+    kind, res = safe_call(lambda: transfer(remote, sp["odb"], ids, verify=True, hardlink=hl))
+    return ["verified_fetch_from_rotten_remote", i, "local" if rlocal else "generic", "state" if "state" in cfg else "stateless",
+            len(have), sorted(rotted), "hardlink" if hl else "copy",
+            ["transferred", len(res.transferred), "failed", len(res.failed)] if kind == "ok" else res]
+
+
+def _stage_rewritten_before_transfer(rng, root, wsn, i, sp, fs, build, transfer):
+    """a directory (or a single file) is staged with build(); before the staged objects are transferred into the store with
+    verify=True some of the files are rewritten (in place or renamed over; same size or not; mtime moved on)"""
+    algo = sp["algo"]
+    single = rng.random() < 0.3
+    if single:
+        files = {("single",): gen.rand_content(rng) + rng.choice([b"", b"\r\n", b"x"])}
+        ws = os.path.join(root, "vws%d" % wsn)
+        gen.materialize(ws, files, rng)
+        target = os.path.join(ws, "single")
+    else:
+        files = gen.rand_tree(rng, max_files=5, max_depth=2)
+        ws = target = os.path.join(root, "vws%d" % wsn)
+        gen.materialize(ws, files, rng)
+    kind, built = safe_call(lambda: build(sp["odb"], target, fs, algo))
+    if kind != "ok":
+        return ["verified_stage_of_rewritten_files", i, "not built", built]
+    staging, _meta, obj = built
+    keys = sorted(files)
+    victims = [k for k in keys if rng.random() < 0.4] or [rng.choice(keys)]
+    how = []
+    for k in victims:
+        fp = os.path.join(ws, *k)
+        st0 = os.stat(fp)
+        new = _other_bytes(rng, algo, digest(algo, files[k]), files[k], False)
+        if rng.random() < 0.5:
+            with open(fp, "wb") as f:
+                f.write(new)
+            way = "in-place"
+        else:
+            with open(fp + ".incoming", "wb") as f:
+                f.write(new)
+            os.replace(fp + ".incoming", fp)
+            way = "renamed-over"
+        os.utime(fp, ns=(st0.st_atime_ns, st0.st_mtime_ns + 1_000_000_000))
+        how.append([way, "same-size" if len(new) == len(files[k]) else "other-size"])
+    ids = {obj.hash_info}
+    if not single and rng.random() < 0.5:
+        ids |= {h for _, _, h in obj}
+    kind, res = safe_call(lambda: transfer(staging, sp["odb"], ids, verify=True, shallow=False))
+    if kind == "ok":
+        # files that were left alone (and do not share their content with a rewritten one) are in the store under their names
+        gone = {digest(algo, files[k]) for k in victims}
+        sp["files"] += [files[k] for k in keys if k not in victims and digest(algo, files[k]) not in gone]
+    return ["verified_stage_of_rewritten_files", i, "file" if single else "dir", len(files), sorted(how),
+            ["transferred", len(res.transferred), "failed", len(res.failed)] if kind == "ok" else res]
+
+
 def _stage(build, transfer, odb, path, fs, algo):
     staging, meta, obj = build(odb, path, fs, algo)
     res = transfer(staging, odb, {obj.hash_info}, shallow=False)
@@ -201,11 +319,16 @@ def _stage(build, transfer, odb, path, fs, algo):
 def run(ctx):
     ctx.rule = (
         "sequences of 3-9 operations {stage+transfer a directory (odd names, duplicates, empty files, CRLF text; with a shared state database often after staging every other file of it on its own: partially warm cache), stage+transfer a "
-        "file, store-to-store transfer (copy or hardlink), index build/md5/save, migrate to another store (incl. md5-dos2unix -> md5)} "
+        "file, store-to-store transfer (copy or hardlink, verify or not), index build/md5/save, migrate to another store (incl. md5-dos2unix -> md5), "
+        "a verify=True transfer from a source that does not hold what its names say: fetch (copy or hardlink) from a freshly filled remote of "
+        "either class in which file and '.dir' objects have rotted (same or other size, still write-protected or not), or transfer of a "
+        "staged file/directory some of whose files were rewritten (in place or renamed over, same or other size) after build()} "
         "over 2-3 stores of either class and algorithm, optionally sharing one hash-state database; every store is audited with "
         "hashlib after every step. non-trivial = at least 3 operations"
     )
     ctx.assumptions = ["raw odb.add(path, fs, arbitrary_oid) is not one of the operations (the test-suite uses it to plant corrupt objects)",
+                       "a source that does not match its names (rotten remote, workspace rewritten after build) is only transferred with verify=True; "
+                       "the rotten remote itself is not one of the audited stores",
                        "chmod works on the sandbox filesystem"]
     for _ in range(ctx.n(90, 1000)):
         run_sequence(ctx, ctx.rng)
